@@ -76,7 +76,8 @@ def main():
             sh("mkdir -p %s && git -C %s archive HEAD | tar -x -C %s && rm -rf %s/seeded %s/evidence %s/mutants" % (verif, VERIF, verif, verif, verif, verif))
         # the harness depends on /repo by absolute path: point this copy at the mutated worktree
         ct = os.path.join(verif, "harness", "Cargo.toml")
-        open(ct, "w").write(open(ct).read().replace('path = "/repo"', 'path = "%s"' % repo))
+        manifest = open(ct).read().replace('path = "/repo"', 'path = "%s"' % repo)
+        open(ct, "w").write(manifest)
         sh("mkdir -p %s/harness/target && cp -a %s/harness/target/ship %s/harness/target/chk %s/harness/target/ 2>/dev/null" % (verif, VERIF, VERIF, verif))
         for pid in ids:
             t0 = time.time()
